@@ -566,6 +566,199 @@ impl CaseSpace for OverflowPerType {
 }
 
 // ---------------------------------------------------------------------------------------
+// (V) every event variation: the object transmitted is the event recorded
+// ---------------------------------------------------------------------------------------
+
+/// (group, variation) of every event variation the library can be configured with, per type
+const EVENT_VARIATIONS: [(usize, u8, u8); 32] = [
+    (0, 2, 1), (0, 2, 2), (0, 2, 3),
+    (1, 4, 1), (1, 4, 2), (1, 4, 3),
+    (2, 11, 1), (2, 11, 2),
+    (3, 22, 1), (3, 22, 2), (3, 22, 5), (3, 22, 6),
+    (4, 23, 1), (4, 23, 2), (4, 23, 5), (4, 23, 6),
+    (5, 32, 1), (5, 32, 2), (5, 32, 3), (5, 32, 4), (5, 32, 5), (5, 32, 6), (5, 32, 7), (5, 32, 8),
+    (6, 42, 1), (6, 42, 2), (6, 42, 3), (6, 42, 4), (6, 42, 5), (6, 42, 6), (6, 42, 7), (6, 42, 8),
+];
+
+fn add_point_with_event_variation(db: &mut Database, ty: usize, var: u8) {
+    let c = Some(EventClass::Class1);
+    match ty {
+        0 => db.add(0, c, BinaryInputConfig::new(StaticBinaryInputVariation::Group1Var2, [EventBinaryInputVariation::Group2Var1, EventBinaryInputVariation::Group2Var2, EventBinaryInputVariation::Group2Var3][var as usize - 1])),
+        1 => db.add(
+            0,
+            c,
+            DoubleBitBinaryInputConfig::new(
+                StaticDoubleBitBinaryInputVariation::Group3Var2,
+                [EventDoubleBitBinaryInputVariation::Group4Var1, EventDoubleBitBinaryInputVariation::Group4Var2, EventDoubleBitBinaryInputVariation::Group4Var3][var as usize - 1],
+            ),
+        ),
+        2 => db.add(0, c, BinaryOutputStatusConfig::new(StaticBinaryOutputStatusVariation::Group10Var2, [EventBinaryOutputStatusVariation::Group11Var1, EventBinaryOutputStatusVariation::Group11Var2][var as usize - 1])),
+        3 => db.add(
+            0,
+            c,
+            CounterConfig::new(
+                StaticCounterVariation::Group20Var1,
+                match var {
+                    1 => EventCounterVariation::Group22Var1,
+                    2 => EventCounterVariation::Group22Var2,
+                    5 => EventCounterVariation::Group22Var5,
+                    _ => EventCounterVariation::Group22Var6,
+                },
+                0,
+            ),
+        ),
+        4 => db.add(
+            0,
+            c,
+            FrozenCounterConfig::new(
+                StaticFrozenCounterVariation::Group21Var1,
+                match var {
+                    1 => EventFrozenCounterVariation::Group23Var1,
+                    2 => EventFrozenCounterVariation::Group23Var2,
+                    5 => EventFrozenCounterVariation::Group23Var5,
+                    _ => EventFrozenCounterVariation::Group23Var6,
+                },
+                0,
+            ),
+        ),
+        5 => db.add(
+            0,
+            c,
+            AnalogInputConfig::new(
+                StaticAnalogInputVariation::Group30Var1,
+                [
+                    EventAnalogInputVariation::Group32Var1,
+                    EventAnalogInputVariation::Group32Var2,
+                    EventAnalogInputVariation::Group32Var3,
+                    EventAnalogInputVariation::Group32Var4,
+                    EventAnalogInputVariation::Group32Var5,
+                    EventAnalogInputVariation::Group32Var6,
+                    EventAnalogInputVariation::Group32Var7,
+                    EventAnalogInputVariation::Group32Var8,
+                ][var as usize - 1],
+                0.0,
+            ),
+        ),
+        _ => db.add(
+            0,
+            c,
+            AnalogOutputStatusConfig::new(
+                StaticAnalogOutputStatusVariation::Group40Var1,
+                [
+                    EventAnalogOutputStatusVariation::Group42Var1,
+                    EventAnalogOutputStatusVariation::Group42Var2,
+                    EventAnalogOutputStatusVariation::Group42Var3,
+                    EventAnalogOutputStatusVariation::Group42Var4,
+                    EventAnalogOutputStatusVariation::Group42Var5,
+                    EventAnalogOutputStatusVariation::Group42Var6,
+                    EventAnalogOutputStatusVariation::Group42Var7,
+                    EventAnalogOutputStatusVariation::Group42Var8,
+                ][var as usize - 1],
+                0.0,
+            ),
+        ),
+    };
+}
+
+/// mode 0: the event is offered by a class poll in its configured variation with the recorded
+/// value, flags and time (as far as the variation carries them), and released by the confirm.
+/// mode 1: first a READ that names *another* variation of the same group is answered and never
+/// confirmed; the class poll that follows must again offer the event as recorded, in the
+/// configured variation.
+pub struct EventVariations;
+
+impl CaseSpace for EventVariations {
+    fn name(&self) -> String {
+        "event-variations".into()
+    }
+    fn seeded(&self) -> bool {
+        true
+    }
+    fn total(&self) -> usize {
+        EVENT_VARIATIONS.len() * 2
+    }
+    fn run(&self, index: usize, transcript: bool) -> RunResult {
+        let mut res = RunResult::default();
+        let (ty, group, var) = EVENT_VARIATIONS[index % EVENT_VARIATIONS.len()];
+        let detour = index / EVENT_VARIATIONS.len() == 1;
+        res.obs = index as u64 + 929292;
+        let cfg = OCfg { event_buf: [5; 8], confirm_timeout_ms: TO, ..Default::default() };
+        let mut sim = OSim::new(&cfg, 1);
+        sim.db(|db| add_point_with_event_variation(db, ty, var));
+        sim.take_cb();
+        const N: u64 = 41; // value 42, time 1041: representable in every variation
+        let info = sim.db(|db| update_v(db, ty, 0, N, 1, false));
+        let key = format!("g{group}v{var}{}", if detour { ":after-unconfirmed-read-of-another-variation" } else { "" });
+        let UpdateInfo::Created(id) = info else {
+            res.violation = Some(Violation::new("C03.V0", key, format!("update reported {info:?}")));
+            return res;
+        };
+        let mut seq = 0u8;
+        if detour {
+            // another variation of the same event group, answered and left unconfirmed
+            let other = EVENT_VARIATIONS.iter().find(|(t, _, v)| *t == ty && *v != var).map(|x| x.2).unwrap_or(var);
+            seq += 1;
+            sim.take_out();
+            sim.send(&app::request(seq, fc::READ, &app::hdr_all(group, other)));
+            let _ = responses(&mut sim);
+            res.transitions += 1;
+        }
+        seq += 1;
+        sim.take_out();
+        sim.send(&app::request(seq, fc::READ, &app::class_headers(true, true, true, false)));
+        res.transitions += 1;
+        let rs = responses(&mut sim);
+        let Some(r) = rs.last() else {
+            res.violation = Some(Violation::new("C03.V0", key, "class poll not answered".to_string()));
+            return res;
+        };
+        let ms = match app::walk(&r.objects, false).map_err(|e| format!("{e:?}")).and_then(|h| decode_measurements(&h)) {
+            Ok(m) => m,
+            Err(e) => {
+                res.violation = Some(Violation::new("C03.V2", key, format!("response does not decode: {e}")));
+                return res;
+            }
+        };
+        let evs: Vec<_> = ms.iter().filter(|m| m.is_event).collect();
+        if transcript {
+            res.transcript.push(format!("{key}: response {} -> {evs:?}", app::hex(&r.raw[..r.raw.len().min(40)])));
+        }
+        let want_val: f64 = match ty {
+            0 | 2 => 1.0,
+            1 => 2.0,
+            _ => 42.0,
+        };
+        let ok = evs.len() == 1
+            && evs[0].group == group
+            && evs[0].var == var
+            && evs[0].index == 0
+            && evs[0].val.as_f64() == Some(want_val)
+            && evs[0].flags.map(|f| f & 0x3F == 0x01).unwrap_or(true)
+            && evs[0].time.map(|t| t.0 == 1000 + N).unwrap_or(true);
+        if !ok {
+            res.violation = Some(Violation::new(
+                "C03.V2",
+                key,
+                format!("recorded: index 0 value {want_val} ONLINE time {} as g{group}v{var}; transmitted: {evs:?}", 1000 + N),
+            ));
+            return res;
+        }
+        sim.send(&app::confirm(r.seq(), false));
+        let rel = cleared(&mut sim);
+        if rel != vec![id] {
+            res.violation = Some(Violation::new("C03.V3", key, format!("confirmed response carried event id {id}; released {rel:?}")));
+            return res;
+        }
+        if let Some(f) = sim.failure() {
+            res.violation = Some(Violation::new("C03.X0", f.clone(), f));
+        }
+        res.nontrivial = true;
+        res.model_states.push(index as u64);
+        res
+    }
+}
+
+// ---------------------------------------------------------------------------------------
 // (K) different limits per type: the buffer holds the sum of the limits
 // ---------------------------------------------------------------------------------------
 
